@@ -285,4 +285,44 @@ theorem zoomFactor_unit (n : Nat) (kk : Nat) :
     · subst hn
       simp [coord, zoomFactor]
 
+/-! ### the weights at integer coordinates are the sampled B-splines -/
+
+theorem weights_int2 {fl : K → Int} (h : IsFloor fl) (n : Int) :
+    weights fl 2 (n : K) = [1 / 8, 3 / 4, 1 / 8] := by
+  have r : List.range (2 + 1) = [0, 1, 2] := rfl
+  have s : startIdx fl 2 (n : K) = n - 1 := by
+    simp only [startIdx, q_half, h.int_half]; simp
+  simp only [weights, r, s, List.map_cons, List.map_nil]
+  have e0 : (((n - 1 : Int) : K) - (n : K) + ((0 : Nat) : K)) = -1 := by push_cast; ring
+  have e1 : (((n - 1 : Int) : K) - (n : K) + ((1 : Nat) : K)) = 0 := by push_cast; ring
+  have e2 : (((n - 1 : Int) : K) - (n : K) + ((2 : Nat) : K)) = 1 := by push_cast; ring
+  rw [e0, e1, e2]
+  norm_num [splineCoeff, absV, q]
+
+theorem weights_int3 {fl : K → Int} (h : IsFloor fl) (n : Int) :
+    weights fl 3 (n : K) = [1 / 6, 2 / 3, 1 / 6, 0] := by
+  have r : List.range (3 + 1) = [0, 1, 2, 3] := rfl
+  have s : startIdx fl 3 (n : K) = n - 1 := by simp [startIdx, h.int]
+  simp only [weights, r, s, List.map_cons, List.map_nil]
+  have e0 : (((n - 1 : Int) : K) - (n : K) + ((0 : Nat) : K)) = -1 := by push_cast; ring
+  have e1 : (((n - 1 : Int) : K) - (n : K) + ((1 : Nat) : K)) = 0 := by push_cast; ring
+  have e2 : (((n - 1 : Int) : K) - (n : K) + ((2 : Nat) : K)) = 1 := by push_cast; ring
+  have e3 : (((n - 1 : Int) : K) - (n : K) + ((3 : Nat) : K)) = 2 := by push_cast; ring
+  rw [e0, e1, e2, e3]
+  norm_num [splineCoeff, absV, q]
+
+theorem weights_int4 {fl : K → Int} (h : IsFloor fl) (n : Int) :
+    weights fl 4 (n : K) = [1 / 384, 19 / 96, 115 / 192, 19 / 96, 1 / 384] := by
+  have r : List.range (4 + 1) = [0, 1, 2, 3, 4] := rfl
+  have s : startIdx fl 4 (n : K) = n - 2 := by
+    simp only [startIdx, q_half, h.int_half]; simp
+  simp only [weights, r, s, List.map_cons, List.map_nil]
+  have e0 : (((n - 2 : Int) : K) - (n : K) + ((0 : Nat) : K)) = -2 := by push_cast; ring
+  have e1 : (((n - 2 : Int) : K) - (n : K) + ((1 : Nat) : K)) = -1 := by push_cast; ring
+  have e2 : (((n - 2 : Int) : K) - (n : K) + ((2 : Nat) : K)) = 0 := by push_cast; ring
+  have e3 : (((n - 2 : Int) : K) - (n : K) + ((3 : Nat) : K)) = 1 := by push_cast; ring
+  have e4 : (((n - 2 : Int) : K) - (n : K) + ((4 : Nat) : K)) = 2 := by push_cast; ring
+  rw [e0, e1, e2, e3, e4]
+  norm_num [splineCoeff, absV, q]
+
 end Mahotas.C18
